@@ -33,6 +33,8 @@ import stream_fams
 for name, flags in (('row', ['--stream-vectorized-enabled=false']), ('vec', ['--stream-vectorized-enabled=true']),
                     ('vec-batch2', ['--stream-vectorized-enabled=true', '--stream-vectorized-batch-size=2'])):
     for f in stream_fams.c15(c):
+        if c.quick and name == 'vec-batch2' and not f['name'].startswith('stream-part-shapes'):
+            continue        # quick tier: the small-batch pipeline runs the part-shape family only
         f = dict(f)
         f['name'] = f['name'] + '-' + name
         f['flags'] = flags
